@@ -178,6 +178,20 @@ def run(ctx, rep):
             if bad:
                 rep.problem("minmax", "minmax_scale contract violated", case, "minmax", True, s, None, "C11_minmax")
             f_mm.add(f"({q_list(a)}, {q_list(list(s))})", case)
+    # minmax_scale far from the origin / at tiny magnitudes: a NON-constant vector must not be treated as constant
+    # (values are exactly representable; the scaled values are compared with the exact quotient within 4 ulp)
+    import fractions as _fr
+    for base, step in ((1e6, 1.0), (2.0 ** 40, 1.0), (-1e6, 0.5), (1.0, 2.0 ** -30), (0.0, 2.0 ** -40), (1e6, 2.0 ** -10), (2.0 ** -30, 2.0 ** -60)):
+        for pat in ((0, 1, 2), (2, 0, 1, 1), (0, 3), (1, 1, 0, 1)):
+            a = [base + step * k for k in pat]
+            arr = np.array(a, dtype=np.float64)
+            s = minmax_scale(arr.copy())
+            case = dict(fn="minmax_scale", data=a)
+            rep.count("minmax-far", tuple(a))
+            mx, mn = max(a), min(a)
+            exp = [float(_fr.Fraction(x) - _fr.Fraction(mn)) / float(_fr.Fraction(mx) - _fr.Fraction(mn)) for x in a]
+            if len(s) != len(a) or any(abs(float(u) - v) > 4 * 2.0 ** -52 for u, v in zip(s, exp)):
+                rep.problem("minmax", "minmax_scale of a non-constant vector is not (x - min)/(max - min)", case, "minmax", True, list(map(float, s)), exp, "C11_minmax")
     rep.sample(dict(family="argsort", array=[1.0, 4.0, 9.0, 3.0], k=2,
                     impl=[int(v) for v in c_ask(np.array([1.0, 4.0, 9.0, 3.0]), 2)]))
 
